@@ -369,6 +369,55 @@ def correspondence(ctx, model_ok, tmp):
                                  {"kind": "re-expand", "input": str(dict(ex.mapping)), "override": [k_o, str(v_o)]})
     ctx.count("cases", n_cases)
 
+    # ---- a data ID compared with a plain mapping: the same answer as comparing with the standardised mapping — also when the mapping
+    # identifies more dimensions, or fewer (then simply unequal: no exception)
+    cmp_pool = [{"instrument": "I"}, {"instrument": "I", "detector": 1}, {"instrument": "I", "detector": 2}, {"instrument": "I", "physical_filter": "f1"},
+                {"instrument": "I", "physical_filter": "f1", "band": "r"}, {"physical_filter": "f1", "instrument": "I"}, {"instrument": "I", "visit": 1},
+                {"instrument": "I", "visit": 1, "detector": 1}, {"instrument": "J"}, {}]
+    for a_map in cmp_pool:
+        a_dc = DataCoordinate.standardize(a_map, universe=u)
+        for b_map in cmp_pool:
+            b_dc = DataCoordinate.standardize(b_map, universe=u)
+            want_eq = a_dc == b_dc
+            ctx.evaluations += 1
+            ctx.count("compare-with-mapping")
+            try:
+                got_eq = a_dc == b_map
+            except Exception as e:
+                got_eq = f"{type(e).__name__}"
+            if got_eq != want_eq or (want_eq and hash(a_dc) != hash(b_dc)):
+                viol(f"data ID {a_dc} == {b_map!r} gives {got_eq}; compared with the standardised mapping {b_dc} it gives {want_eq}"
+                     + ("" if not want_eq or hash(a_dc) == hash(b_dc) else " (and the hashes differ)"),
+                     f"compare-mapping:{sorted(a_map)}:{sorted(b_map)}", {"kind": "compare", "left": str(a_map), "right": str(b_map)})
+    # ---- records written inside a block that fails and is caught inside an outer block that commits: afterwards expansion must not
+    # know them (the record cache is emptied when the inner block is rolled back)
+    try:
+        with reg.transaction():
+            try:
+                with reg.transaction(savepoint=True):
+                    reg.insertDimensionData("detector", {"instrument": "I", "id": 77, "full_name": "ghost"})
+                    reg.insertDimensionData("physical_filter", {"instrument": "I", "name": "f1", "band": "z"}, replace=True)
+                    reg.expandDataId(instrument="I", detector=77)
+                    reg.expandDataId(instrument="I", physical_filter="f1")
+                    raise RuntimeError("verif: inner block fails")
+            except RuntimeError:
+                pass
+        ctx.evaluations += 1
+        ctx.count("records-of-a-rolled-back-inner-block")
+        problems = []
+        try:
+            reg.expandDataId(instrument="I", detector=77)
+            problems.append("expandDataId still accepts the detector the rolled-back inner block had inserted")
+        except DataIdValueError:
+            pass
+        band_now = reg.expandDataId(instrument="I", physical_filter="f1")["band"]
+        if band_now != BAND["f1"]:
+            problems.append(f"expandDataId reports band {band_now!r} for f1, the stored record says {BAND['f1']!r}")
+        if problems:
+            viol("an inner block that inserted / replaced dimension records failed and was caught inside a committing outer transaction: " + "; ".join(problems),
+                 "records-of-rolled-back-inner-block", {"kind": "nested-rollback", "problems": problems})
+    except Exception as e:
+        viol(f"nested record transaction scenario raised {type(e).__name__}: {str(e)[:100]}", "nested-rollback-raise", {"kind": "nested-rollback"})
     # ---- unions of data IDs (plain and expanded operands) commute with the key/value sets and never claim records they lack
     expanded = []
     for v in (1, 2):
